@@ -59,7 +59,7 @@ Qed.
 (** labels of the system: everything except the environment's choices *)
 Definition sys_label (l : label) : bool :=
   match l with
-  | LCall _ | LRhCall _ | LEnvCancel | LEmit _ | LFinish _ | LFail _ | LTimeout _ | LSubCloseRet _ => false
+  | LCall _ | LRhCall _ | LEnvCancel | LEmit _ | LSubEnd _ | LFinish _ | LFail _ | LTimeout _ | LSubCloseRet _ => false
   | _ => true
   end.
 
